@@ -209,6 +209,17 @@ fn full_walk_cases(r: &mut Rng, n: usize, sink: &mut Sink) {
         let in_domain = !post.loco_con.loco_vec.iter().any(|l| l.state.pwr_out_max.value < 0.0);
         let coq = format!("x_sl_full_walk {}%N {} {} {} {} (Build_SLState {} {} {} {}) {}", steps + 5, env.env_coq, env.pts_coq, cf(end), cf(fmax),
             coq_tstate(&pre), coq_cache(&pre_cache), coq_fb(&pre_fb), cnat(pre_idx), coq_consist(&pre_con));
+        // the same walk END TO END from the user's inputs (network, train parameters, route): the model builds the
+        // path, the speed profile and the braking points itself (WholeSim.v) before walking
+        if let Ok(tp) = builder(&train, None, true).train_config.make_train_params() {
+            let route_z = format!("[{}]", route.path.iter().map(|l| cz(l.idx() as i64)).collect::<Vec<_>>().join("; "));
+            let coq2 = format!("x_sl_whole_sim 200000%N {}%N {} {} {} {} {} {} {} {} {}", steps + 5, crate::trk::coq_net(&route.network), crate::trk::coq_tp(&tp), route_z,
+                coq_rp(&rp), cf(fmax), coq_fb(&pre_fb), coq_tstate(&pre), coq_cache(&pre_cache), coq_consist(&pre_con));
+            let mut tg = tags.clone(); tg.push("from:network+route".into());
+            sink.put(Case { id: format!("sl_whole_sim/{}", t - 1), kind: "sl_whole_sim".into(), coq: coq2, outcome: outcome.clone(), tags: tg,
+                input: json!({"sim": "speed_limit", "route": route_json(&route), "train": train_json(&train), "dt": o.dt, "ramp_up_time": o.ramp_up_time, "whole_walk": true, "end_to_end": true}),
+                oracle_fail: vec![], known: vec![], in_domain });
+        }
         sink.put(Case { id: format!("sl_full_walk/{}", t - 1), kind: "sl_full_walk".into(), coq, outcome, tags,
             input: json!({"sim": "speed_limit", "route": route_json(&route), "train": train_json(&train), "dt": o.dt, "ramp_up_time": o.ramp_up_time, "whole_walk": true}),
             oracle_fail: fails, known: vec![], in_domain });
